@@ -11,6 +11,7 @@
 import MptModel.Lemmas.Stream
 import MptModel.Lemmas.CodedQueueHist
 import MptModel.Lemmas.CodedQueueDec
+import MptModel.Lemmas.CodedQueueRun
 namespace Mpt.C02
 open Mpt Mpt.Cobs Mpt.Stream Mpt.Codec Mpt.CQ
 
@@ -192,20 +193,6 @@ example :
 
 /-! the decode queue -/
 
-/-- operations on the receiver side -/
-inductive DOp where
-  | feed (bytes : List Byte)
-  | recv
-  | shift
-  | grow (n : Nat)
-  deriving Repr
-
-def dstep (q : DecodeQueue) : DOp → DecodeQueue
-  | .feed bytes => match queueFeed q bytes with | .ok (q', _) => q' | _ => q
-  | .recv => match queueRecv q with | .ok (q', _) => q' | _ => q
-  | .shift => match queueShift q with | .ok q' => q' | _ => q
-  | .grow n => match queueGrow q n with | .ok q' => q' | _ => q
-
 /-- **Representation invariant of the decode queue, every reachable state**: from a fresh queue (any
     capacity, wrap offset, storage alignment, framing) after any sequence of arrivals of arbitrary bytes,
     receives, shifts and growths: `pos + len ≤ curr ≤ data.len ≤ max` — the decoded bytes `[pos, pos+len)`
@@ -215,36 +202,7 @@ theorem queue_inv_decode (v : Variant) (store : List Byte) (off base : Nat) (hof
     let q := ops.foldl dstep { ring := { store := store, len := 0, off := off }, codec := some v, base := base }
     q.st.pos + q.st.len ≤ q.st.curr ∧ q.st.curr ≤ q.ring.len ∧ q.ring.len ≤ q.ring.max ∧
     (∀ m, q.st.msg = some m → m = q.st.len) := by
-  have key : ∀ (ops : List DOp) (q : DecodeQueue), DInv q → q.codec = some v →
-      DInv (ops.foldl dstep q) ∧ (ops.foldl dstep q).codec = some v := by
-    intro ops
-    induction ops with
-    | nil => intro q h hc; exact ⟨h, hc⟩
-    | cons op ops ih =>
-      intro q h hc
-      simp only [List.foldl_cons]
-      apply ih
-      · cases op with
-        | feed bytes => obtain ⟨q', c, he, hi, _⟩ := queueFeed_inv q bytes h; simp only [dstep, he]; exact hi
-        | recv => obtain ⟨q', r, he, hi, _⟩ := queueRecv_inv v q hc h; simp only [dstep, he]; exact hi
-        | shift => obtain ⟨q', he, hi, _⟩ := queueShift_inv q h; simp only [dstep, he]; exact hi
-        | grow n => obtain ⟨q', he, hi, _⟩ := queueGrow_inv q n h; simp only [dstep, he]; exact hi
-      · cases op with
-        | feed bytes =>
-          obtain ⟨q', c, he, _, _, _, _⟩ := queueFeed_inv q bytes h
-          simp only [dstep, he]
-          unfold queueFeed at he
-          split at he <;> first | (cases he; exact hc) | cases he
-        | recv => obtain ⟨q', r, he, _, _, hc'⟩ := queueRecv_inv v q hc h; simp only [dstep, he]; exact hc'
-        | shift => obtain ⟨q', he, _, _, _, hc'⟩ := queueShift_inv q h; simp only [dstep, he]; rw [hc']; exact hc
-        | grow n =>
-          obtain ⟨q', he, _⟩ := queueGrow_inv q n h
-          simp only [dstep, he]
-          unfold queueGrow at he
-          split at he
-          · cases he; exact hc
-          · split at he <;> first | (cases he; exact hc) | cases he
-  obtain ⟨hi, _⟩ := key ops _ (DInv.fresh store off hoff (some v) base) rfl
+  obtain ⟨hi, _⟩ := dstep_inv v ops _ (DInv.fresh store off hoff (some v) base) rfl
   exact ⟨hi.bnd.le, hi.bnd.tot, hi.wf.1, hi.bnd.msg⟩
 
 /-- `mpt_queue_recv` is total on every state that satisfies the invariant: no access outside the storage,
@@ -261,5 +219,99 @@ example :
     ((queueFeed q0 [0xe1, 0x61, 0x02, 0x62, 0x00]).toOption'.bind fun q1 =>
       (queueRecv q1.1).toOption'.map fun q2 => (q2.2, (currentMessage q2.1).map Res.toOption'))
       = some (1, some (some (0, [0x61, 0, 0, 0x62]))) := by decide
+
+/-- **`mpt_queue_recv` refines the reference receiver, one call, any queue state**: a receiver that stands at a
+    definite place of a valid frame stream (`Phase`: `k` frames finished; between two frames, or inside frame
+    `k` after its first byte and some consumed bytes; any capacity, wrap offset, storage alignment, any split
+    of the data into the two ring parts) either does not deliver and keeps its place, or delivers — readable
+    through `mpt_message_get(data.pos, data.msg)` — exactly the message of frame `k` and stands behind that
+    frame.  The call is total; the `MissingBuffer` recovery (space prepended, decoded data moved back, retry)
+    is covered. -/
+theorem queue_refines_recv (v : Variant) (frames : List (List Byte)) (ms : List Msg) (hcar : Carries v frames ms)
+    (q : DecodeQueue) (hc : q.codec = some v) (fed future : List Byte) (hfut : fed ++ future = frames.flatten) (k : Nat)
+    (h : DInv q) (hph : Phase v frames q.st q.ring.content fed k) :
+    ∃ q' r, queueRecv q = .ok (q', r) ∧ q'.codec = some v ∧ q'.ring.store.length = q.ring.store.length ∧
+      RecvOut v frames ms fed k q' r :=
+  queueRecv_phase v frames ms hcar q hc fed future hfut k h hph
+
+/-- **Receiver history, all schedules**: a fresh decode queue (any capacity, wrap offset, storage alignment,
+    framing) is fed a valid frame stream — frames that carry the messages `ms` — in arbitrary pieces (a
+    prefix of the stream may have arrived so far), with receives, shifts and growths in any order.  Then the
+    messages delivered so far, each read through `mpt_message_get` after the delivering `mpt_queue_recv`, are
+    exactly the first messages of `ms`: same order, same bytes, nothing duplicated, merged or invented —
+    whatever the ring did (wrap-around, `mpt_qpre` recovery, cropping). -/
+theorem receiver_history (v : Variant) (frames : List (List Byte)) (ms : List Msg) (hcar : Carries v frames ms)
+    (store : List Byte) (off base : Nat) (hoff : off ≤ store.length) (ops : List DOp) (future : List Byte) :
+    let s := ops.foldl rstep { q := { ring := { store := store, len := 0, off := off }, codec := some v, base := base } }
+    s.fed ++ future = frames.flatten → ∃ k, s.got = ms.take k ∧ k ≤ ms.length := by
+  intro s hfut
+  have hfresh : Fresh ({} : DecState) := ⟨rfl, fun _ => rfl, fun m hm => by cases hm⟩
+  have h0 : RInv v frames ms { q := { ring := { store := store, len := 0, off := off }, codec := some v, base := base } } :=
+    ⟨DInv.fresh store off hoff (some v) base, rfl, 0, by simp, by omega, Phase.idle hfresh (by simp) (by simp [Ring.content])⟩
+  obtain ⟨k, hk, hkl, _⟩ := (rrun_inv v frames ms hcar ops _ future hfut h0).ex
+  exact ⟨k, hk, hkl⟩
+
+/-- **Sender queue to receiver queue (model, end to end, safety)**: messages written through an encode queue
+    by any sender history, its wire taken in any pieces and fed in arbitrary pieces to a decode queue with any
+    receiver history: what the receiver has delivered is a prefix of what the sender has terminated. -/
+theorem queue_to_queue (v : Variant) (estore : List Byte) (eoff : Nat) (heoff : eoff ≤ estore.length) (eops : List EOp)
+    (dstore : List Byte) (doff base : Nat) (hdoff : doff ≤ dstore.length) (dops : List DOp) (future : List Byte) :
+    let s := erun { q := { ring := { store := estore, len := 0, off := eoff }, codec := some (.cobs v) } } eops
+    let r := dops.foldl rstep { q := { ring := { store := dstore, len := 0, off := doff }, codec := some v, base := base } }
+    s.q.ring.len = 0 → r.fed ++ future = s.wire → ∃ k, r.got = s.msgs.take k ∧ k ≤ s.msgs.length := by
+  intro s r h0 hfed
+  obtain ⟨frames, inq, part, hcar, hsum, hz⟩ := sender_history v estore eoff heoff eops
+  obtain ⟨rfl, rfl⟩ := hz h0
+  simp only [List.append_nil] at hsum
+  exact receiver_history v frames _ hcar dstore doff base hdoff dops future (by rw [hfed]; exact hsum)
+
+-- non-vacuity: two messages through a wrapped sender ring (capacity 8, offset 5) and a wrapped receiver ring
+-- (capacity 12, offset 10, odd storage address), piecewise delivery with a shift in between, COBS/R
+example :
+    let s := erun { q := { ring := { store := List.replicate 8 0, len := 0, off := 5 }, codec := some (.cobs .cobsR) } }
+      [.push [7, 0, 0, 9], .term, .take 2, .push [1, 2], .term, .take 100]
+    let r := ([.feed [2], .recv, .feed [7], .recv, .feed [1, 9], .shift, .recv, .feed [0, 3], .recv, .feed [1, 2, 0], .recv] : List DOp).foldl rstep
+      { q := { ring := { store := List.replicate 12 0, len := 0, off := 10 }, codec := some .cobsR, base := 3 } }
+    s.wire = [2, 7, 1, 9, 0, 3, 1, 2, 0] ∧ r.fed = s.wire ∧ r.got = [[7, 0, 0, 9], [1, 2]] ∧ s.msgs = r.got := by decide
+
+/-- **queue_inv** (both queues, every reachable state): `EncodeQueue`: `done + scratch = data.len ≤ max`;
+    `DecodeQueue`: `pos + len ≤ curr ≤ data.len ≤ max` (decoded bytes in front of undecoded ones) -/
+theorem queue_inv (v : Variant) (store : List Byte) (off base : Nat) (hoff : off ≤ store.length) (eops : List EOp) (dops : List DOp) :
+    (let s := erun { q := { ring := { store := store, len := 0, off := off }, codec := some (.cobs v) } } eops
+     s.q.st.done + s.q.st.scratch = s.q.ring.len ∧ s.q.ring.len ≤ s.q.ring.max) ∧
+    (let q := dops.foldl dstep { ring := { store := store, len := 0, off := off }, codec := some v, base := base }
+     q.st.pos + q.st.len ≤ q.st.curr ∧ q.st.curr ≤ q.ring.len ∧ q.ring.len ≤ q.ring.max) :=
+  ⟨let h := queue_inv_encode v store off hoff eops; ⟨h.1, h.2.1⟩,
+   let h := queue_inv_decode v store off base hoff dops; ⟨h.1, h.2.1, h.2.2.1⟩⟩
+
+/-- **queue_refines** (push and recv on any ring state equal the flat encoder / the reference receiver on the
+    ring's content): the conjunction of `queue_refines_push` and `queue_refines_recv` -/
+theorem queue_refines (v : Variant) :
+    (∀ (q : EncodeQueue) (vis fin : List Byte) (ms : List (Byte × Bool)) (src : Option (List Byte)), EInv v q vis fin ms →
+      ∃ out, queuePush q src = .ok out ∧ out.q.ring.store.length = q.ring.store.length ∧
+        ((out.ret < 0 ∧ EInv v out.q vis fin ms) ∨
+         (∃ (vis' fin' : List Byte) (ms' : List (Byte × Bool)) (ret : Nat), out.ret = (ret : Int) ∧
+            Progress v src vis fin ms vis' fin' ms' ret ∧ EInv v out.q vis' fin' ms'))) ∧
+    (∀ (frames : List (List Byte)) (ms : List Msg), Carries v frames ms →
+      ∀ (q : DecodeQueue), q.codec = some v → ∀ (fed future : List Byte), fed ++ future = frames.flatten → ∀ (k : Nat),
+        DInv q → Phase v frames q.st q.ring.content fed k →
+        ∃ q' r, queueRecv q = .ok (q', r) ∧ q'.codec = some v ∧ q'.ring.store.length = q.ring.store.length ∧
+          RecvOut v frames ms fed k q' r) :=
+  ⟨fun q vis fin ms src h => queue_refines_push v q vis fin ms src h,
+   fun frames ms hcar q hc fed future hfut k h hph => queue_refines_recv v frames ms hcar q hc fed future hfut k h hph⟩
+
+/-! ### Stated, not proved for the model (liveness; tied to the code by the correspondence run only) -/
+
+/-- no stall at the model level: once the bytes accepted by the decode queue contain `k` complete frames,
+    repeated receiving — with the storage enlarged whenever `MissingBuffer` is returned — delivers `k`
+    messages.  (Safety — what is delivered is right — is `receiver_history`; the spec-level statement is
+    `no_stall`.  The generators check this clause on every `dq drain`.) -/
+def no_stall_model_statement : Prop :=
+  ∀ (v : Variant) (frames : List (List Byte)) (ms : List Msg), Carries v frames ms →
+  ∀ (store : List Byte) (off base : Nat), off ≤ store.length → ∀ (ops : List DOp) (future : List Byte),
+    let s := ops.foldl rstep { q := { ring := { store := store, len := 0, off := off }, codec := some v, base := base } }
+    s.fed ++ future = frames.flatten →
+    ∃ n, let s' := ((List.replicate n [DOp.recv, DOp.grow (s.q.ring.max + 64 * (n + 1))]).flatten).foldl rstep s
+      s'.got = ms.take (frameCount s.fed)
 
 end Mpt.C02
